@@ -23,7 +23,7 @@ def _run0(ck, fb):
         '{ephemeral, from_grpc, from_cluster} equals "ephemeral && !grpc && not owned by another node" (exhaustive interpretation of the '
         'compiled function); (b) re-validation before expiry: in Service::time_check both the removal and the mark-unhealthy step are '
         'skipped (continue) when the instance is not subject to the clock or its last heartbeat is newer than the cut-off; (c) arming: '
-        'healthy_timeout_set.add in update_instance only under is_enable_timeout() && !from_sync with the instance\'s last_modified time, '
+        'healthy_timeout_set.add in update_instance only under is_enable_timeout() with the instance\'s last_modified time, '
         'unhealthy_timeout_set.add only when an instance is marked unhealthy, do_refresh_process_range re-arms only taken-over HTTP '
         'instances; (d) the 2 s driver re-arms itself and reaches time_check; cut-offs are now - configured time-outs.')
     ck.undecided = 'Does not decide anything about real time or about the TimeoutSet implementation (external crate).'
@@ -116,7 +116,7 @@ def _run0(ck, fb):
                 cut = [l for l in range(1, t.argc + 1) if t.local_name(l) == cutoff]
                 tb = Taint(t, local_src=cut)
                 ck.require(tb.op_tainted(x.args[1]), 'R13b', 'time_check:%s<-%s' % (setf, cutoff), x.where(), '%s is drained with the wrong cut-off' % setf)
-    ck.rule('R13c', 'arming: healthy_timeout_set.add in update_instance is guarded by is_enable_timeout() && !from_sync and keyed by '
+    ck.rule('R13c', 'arming: healthy_timeout_set.add in update_instance is guarded by is_enable_timeout() and keyed by '
                     'last_modified_millis; unhealthy_timeout_set.add only in update_instance_healthy_invalid (after healthy=false); '
                     'do_refresh_process_range arms only !from_grpc && is_from_cluster() instances')
     u = ck.body(SV + 'update_instance', 'R13c')
@@ -138,8 +138,9 @@ def _run0(ck, fb):
                     if neg:
                         pol = not pol
                     g2 = pol is False
-            ck.require(g1 and g2, 'R13c', 'update_instance:arm-guard', s.where(),
-                       'the health time-out is armed outside (is_enable_timeout() && !from_sync): %s' % [cfg.fmt_atom(a) for a in atoms])
+            # (the pinned code also demanded !from_sync; that conjunct is not required by the property - it was the defect R13g reports)
+            ck.require(g1, 'R13c', 'update_instance:arm-guard', s.where(),
+                       'the health time-out is armed outside is_enable_timeout(): %s' % [cfg.fmt_atom(a) for a in atoms])
             ck.require(cfg.origin_fields(u, s.args[1])[-1:] == ['last_modified_millis'], 'R13c', 'update_instance:arm-time', s.where(),
                        'the health time-out is not keyed by the instance\'s last heartbeat time')
         # every registration reaches the arming test: instances.insert is dominated by the is_enable_timeout call
